@@ -40,6 +40,13 @@ impl<T> Arc<T> {
     pub fn ptr_eq(a: &Self, b: &Self) -> bool {
         Rc::ptr_eq(&a.0, &b.0)
     }
+    // further std::sync::Arc API an edit of vm.rs may plausibly use (counts: handles are never released in this shim)
+    pub fn strong_count(a: &Self) -> usize {
+        Rc::strong_count(&a.0)
+    }
+    pub fn as_ptr(a: &Self) -> *const T {
+        Rc::as_ptr(&a.0)
+    }
 }
 impl<T> Clone for Arc<T> {
     fn clone(&self) -> Self {
@@ -60,6 +67,9 @@ impl<T> Mutex<T> {
     }
     pub fn lock(&self) -> Result<RefMut<'_, T>, ()> {
         Ok(self.0.borrow_mut())
+    }
+    pub fn try_lock(&self) -> Result<RefMut<'_, T>, ()> {
+        self.0.try_borrow_mut().map_err(|_| ())
     }
 }
 
@@ -119,6 +129,30 @@ impl<T> VecDeque<T> {
     }
     pub fn get_mut(&mut self, i: usize) -> Option<&mut T> {
         if i < self.len { self.slots[wrap(self.head + i)].as_mut() } else { None }
+    }
+    pub fn front(&self) -> Option<&T> {
+        self.get(0)
+    }
+    pub fn back(&self) -> Option<&T> {
+        if self.len == 0 { None } else { self.get(self.len - 1) }
+    }
+    pub fn front_mut(&mut self) -> Option<&mut T> {
+        self.get_mut(0)
+    }
+    pub fn push_front(&mut self, t: T) {
+        assert!(self.len < CAP, "u8 shim: FIFO capacity exceeded");
+        self.head = wrap(self.head + CAP - 1);
+        self.slots[self.head] = Some(t);
+        self.len += 1;
+    }
+    pub fn pop_back(&mut self) -> Option<T> {
+        if self.len == 0 {
+            None
+        } else {
+            let v = self.slots[wrap(self.head + self.len - 1)].take();
+            self.len -= 1;
+            v
+        }
     }
     pub fn iter(&self) -> Iter<'_, T> {
         Iter { q: self, i: 0 }
